@@ -39,6 +39,27 @@ def run(ctx):
     ctx.rule("R6", "the file front end scans the file's own text (what --stdin and the language server receive verbatim), so ranges agree")
     from .c18 import read_file_identity
     read_file_identity(ctx, "R6")
+    # every front end matches with the WHOLE rule — RuleCore / RuleConfig, i.e. rule + constraints + transform — never with the bare `Rule`
+    # tree that RuleCore derefs to (`&rule_config.matcher` coerces silently to `&Rule` where a parameter asks for one): a front end that
+    # searches with the bare tree ignores `constraints:` and reports findings the others do not
+    bare = []
+    n_m = 0
+    for f in prog.fns.values():
+        if f.crate not in ("ast_grep", "ast_grep_lsp"):
+            continue
+        for c in f.calls:
+            if c.bb not in f.live_blocks or c.name not in ("find", "find_all", "matches", "replace", "replace_all", "make_edit", "generate", "match_node", "match_node_with_env", "has", "inside"):
+                continue
+            tys = [f.locals[a[1][0]] for a in c.args if a[0] != "k"]
+            if any(re.match(r"^&?(mut )?ast_grep_config::(rule_core::RuleCore|rule_config::RuleConfig)<", t) for t in tys):
+                n_m += 1
+            if any(re.match(r"^&?(mut )?ast_grep_config::rule::Rule<", t) for t in tys):
+                bare.append((f, c))
+    ctx.floor("R1", "front-end matcher calls with a whole rule", n_m, 4)
+    ctx.ob("R1", "no front end searches with the bare Rule tree", not bare,
+           "%d matcher call(s) in the cli/lsp take a RuleCore/RuleConfig; none takes a bare Rule" % n_m if not bare else
+           "%s calls %s with a bare `Rule` (RuleCore derefs to it): constraints and transform of the rule are skipped here, so this front end's findings/verdicts differ from the "
+           "others for every rule with `constraints:`" % (bare[0][0].id, bare[0][1].name), where=bare[0][0].loc(bare[0][1].line) if bare else None)
     ctx.rule("R7", "rule selection is the same for every front end: RuleCollection stores only rules that are not off, keeps one bucket per language (readers take the first), "
              "and every whole-collection accessor visits both the unscoped and the path-scoped rules")
     from . import rulecoll
